@@ -34,13 +34,16 @@ RULE = ("case = triple of finite generated diagrams X,Y,Z (0..60 points quick, u
 ASSUMPTIONS = [
     "any permutation of a str-keyed set is a legal CPython iteration order",
     "bottleneck clauses are exact or rel 1e-12 of the coordinate scale (values are entries of the cost matrix); "
-    "Wasserstein clauses use atol 1e-6*(M+N)*max|coordinate| (scikit-learn expanded quadratic form, DESIGN.md 3); "
+    "Wasserstein clauses use atol 2e-7*(M+N)*max|coordinate| (rel 1e-12 for the empty-diagram law) (scikit-learn expanded quadratic form, DESIGN.md 3); "
     "generated shifts stay <= 10x the diagram scale so that this stays far below the distances compared",
     "sampling, not proof",
 ]
 REAL_COMPONENTS = ["persim.bottleneck, persim.wasserstein (working tree)", "hopcroftkarp (real code)", "scipy, sklearn",
                    "real CPython set order in the PYTHONHASHSEED sweep"]
 STUB_COMPONENTS = ["builtin set inside hopcroftkarp -> SimSet (simulated phase only)"]
+
+
+reset_world = mc.reset_world
 
 
 def gen_case(rng, tier):
@@ -69,7 +72,7 @@ def gen_case(rng, tier):
         diag.append([t, t])
     return {
         "inputs": {"X": X, "Y": Y, "Z": Z, "perm": perm, "diag": diag,
-                   "shift": rng.choice((0.5, -1.0, 2.0, 0.3, -0.7, 3.25)) * scale,
+                   "shift": rng.choice((0.5, -1.0, 2.0, 0.3, -0.7, 3.25, 10.0, 100.0, 1024.0)) * scale,
                    "factor": rng.choice((2.0, 0.5, 4.0, 3.0, 0.1, 7.5, 1e3))},
         "config": {"set_order": "sim", "mode": rng.choice(("uniform", "uniform", "sparse", "reverse")),
                    "laws": list(LAWS)},
@@ -133,7 +136,7 @@ def run_case(case, sched):
     bt = 1e-12 * sc                                        # bottleneck slack
 
     def wt(*ds):                                           # Wasserstein slack
-        return 1e-6 * max(2, sum(len(d) for d in ds)) * _scale(*ds)
+        return 2e-7 * max(2, sum(len(d) for d in ds)) * _scale(*ds)
 
     def fail(law, kind, discr, msg):
         raise Violation(law, kind, discr, msg)
@@ -167,9 +170,12 @@ def run_case(case, sched):
             if not abs(a - b) <= wt(X, Y):
                 fail(law, "wasserstein", "asymmetric", "d(X,Y)=%r, d(Y,X)=%r" % (a, b))
         elif law == "nonneg":
-            for nm, f in (("bottleneck", ev.bott), ("wasserstein", ev.wass)):
+            # bottleneck values are entries of the cost matrix (absolute values and (d-b)/2): exactly >= 0.
+            # Wasserstein sums rotated coordinates b*(cos-sin)(pi/4), which is -1e-16*|b| for a diagonal
+            # point with b < 0: the documented floating-point tolerance applies to this clause too.
+            for nm, f, slack in (("bottleneck", ev.bott, 0.0), ("wasserstein", ev.wass, wt(Y, Z))):
                 v = f(Y, Z)
-                if not v >= 0.0 or math.isinf(v):
+                if not v >= -slack or math.isinf(v):
                     fail(law, nm, "negative-or-nan", "d(Y,Z) = %r" % v)
         elif law == "triangle":
             a, b, c = ev.bott(X, Z), ev.bott(X, Y), ev.bott(Y, Z)
@@ -214,8 +220,10 @@ def run_case(case, sched):
             for a, where in ((ev.bott(Y, []), "d(Y,{})"), (ev.bott([], Y), "d({},Y)")):
                 if not abs(a - want_b) <= bt:
                     fail(law, "bottleneck", "wrong", "%s=%r but max persistence/2=%r" % (where, a, want_b))
+            # no near-coincident cross pair is involved against the (0,0) placeholder, so the
+            # sqrt(eps) noise of the expanded quadratic form does not apply: rel 1e-12 of the scale
             for a, where in ((ev.wass(Y, []), "d(Y,{})"), (ev.wass([], Y), "d({},Y)")):
-                if not abs(a - want_w) <= wt(Y, Y):
+                if not abs(a - want_w) <= 1e-12 * max(1, len(Y)) * _scale(Y) + 1e-300:
                     fail(law, "wasserstein", "wrong", "%s=%r but total persistence/sqrt2=%r" % (where, a, want_w))
         elif law == "bott<=wass":
             a, b = ev.bott(X, Z), ev.wass(X, Z)
